@@ -170,8 +170,12 @@ class DiameterAssociation(object):
         self.transport.close()
         self.transport = None
 
-        #: Wakes up every application thread blocked in get_message().
+        #: Wakes up every application thread blocked in get_message(). The 
+        #: lock keeps a consumer that has just found the Queue empty from 
+        #: clearing this last go ahead (see get_postprocess_recv_message).
+        self.postprocess_recv_messages_lock.acquire()
         self.postprocess_recv_messages_ready.set()
+        self.postprocess_recv_messages_lock.release()
 
 
     def recv_message_from_queue(self) -> None:
